@@ -1,5 +1,10 @@
 package config
 
+import (
+	"strings"
+	"unicode"
+)
+
 // Seed configurations of the C15 walker.  Every identifier is distinctive so
 // that the "consistent rename" stream can replace all occurrences of one
 // identifier at once.  Together they contain: user-supplied unique and index
@@ -137,4 +142,31 @@ var Markers = []Marker{
 	{"zq'1", true}, {"zq;2", true}, {"zq)3", true}, {"zq 4", true}, {"zqé5", false}, {"zq--6", false},
 	{"zq\"7", true}, {"zq٣8", false}, {"zqⅧ9", true}, {"zq\u00a0a", true}, {"zq；b", true}, {"zq,(c", true},
 	{"zq\\d", true}, {"zq/*e", true}, {"zq$f", true}, {"zq\ng", true}, {"zq.h", true}, {"zq_i-9", false},
+	// index-entry markers (FirstIdxMarker..): a direction keyword before, after or instead of the
+	// hostile part.  Hostile here = outside the alphabet as a plain identifier; for a table.index
+	// position the verdict is IdxHostile (one trailing " asc" / " desc", exactly, may stay).
+	{"zq desc); drop 1", true}, {"zq ASC;x", true}, {"zq asc desc", true}, {" desc", true}, {"zq  desc", true},
+	{"desc", false}, {"zq desc ", true}, {"zq asc ", true}, {"zq asc", true}, {"zq DESC", true}, {"zq);-- desc", true},
+	{"zq desc--", true}, {"zq\tdesc", true},
+}
+
+// FirstIdxMarker is the position of the first index-entry marker in Markers.
+const FirstIdxMarker = 18
+
+// IdxHostile is the verdict for a marker at a table.index position: strip ONE
+// trailing " asc" or " desc" (exact spelling); what remains must consist of
+// letters, digits, '_' and '-'.
+func IdxHostile(s string) bool {
+	switch {
+	case strings.HasSuffix(s, " asc"):
+		s = strings.TrimSuffix(s, " asc")
+	case strings.HasSuffix(s, " desc"):
+		s = strings.TrimSuffix(s, " desc")
+	}
+	for _, r := range s {
+		if !(unicode.IsLetter(r) || unicode.IsDigit(r) || r == '_' || r == '-') {
+			return true
+		}
+	}
+	return false
 }
